@@ -47,6 +47,9 @@ func runC01(r *lib.Run) {
 			opt.Unkeyed = i%3 == 0
 			opt.EmptyLeafLists = i%5 == 0
 			opt.OrderedSiblings = true
+			if skip(cfg, i) {
+				continue
+			}
 			g := lib.NewGen(cfg, r.Seed, i, opt)
 			t := g.Tree()
 			mode := jsonModes()[i%4]
@@ -78,7 +81,7 @@ func c01Case(r *lib.Run, cfg *lib.Cfg, g *lib.Gen, t ygot.GoStruct, mode jsonMod
 		return
 	}
 	if err != nil {
-		r.Violate("emit-error", lib.NormErr(err.Error()), err.Error(), w(map[string]interface{}{}))
+		r.ViolateErr("emit-error", err, w(map[string]interface{}{}))
 		return
 	}
 	if idx < 2 {
@@ -89,7 +92,7 @@ func c01Case(r *lib.Run, cfg *lib.Cfg, g *lib.Gen, t ygot.GoStruct, mode jsonMod
 		return
 	}
 	if err != nil {
-		r.Violate("unmarshal-error", lib.NormErr(err.Error()), err.Error(), w(map[string]interface{}{"json": lib.Clip(j1, 4000)}))
+		r.ViolateErr("unmarshal-error", err, w(map[string]interface{}{"json": lib.Clip(j1, 4000)}))
 		return
 	}
 	o2 := cfg.Observe(nroot)
@@ -102,7 +105,7 @@ func c01Case(r *lib.Run, cfg *lib.Cfg, g *lib.Gen, t ygot.GoStruct, mode jsonMod
 		return
 	}
 	if err != nil {
-		r.Violate("re-emit-error", lib.NormErr(err.Error()), err.Error(), w(map[string]interface{}{}))
+		r.ViolateErr("re-emit-error", err, w(map[string]interface{}{}))
 		return
 	}
 	if j2 != j1 && len(deltas) == 0 {
@@ -123,7 +126,7 @@ func c01Case(r *lib.Run, cfg *lib.Cfg, g *lib.Gen, t ygot.GoStruct, mode jsonMod
 		return
 	}
 	if err != nil {
-		r.Violate("marshal7951-error", lib.NormErr(err.Error()), err.Error(), w(map[string]interface{}{}))
+		r.ViolateErr("marshal7951-error", err, w(map[string]interface{}{}))
 		return
 	}
 	a, e1 := normJSON(m)
